@@ -46,13 +46,23 @@ def run(ctx):
     rmtree = need(where, calling(g, name="osutils.rmtree"), "osutils.rmtree")
     delany = need(where, calling(g, name="osutils.delete_any"), "osutils.delete_any")
     k2_unreachable(ctx, "R2-rmtree-needs-force", where, g, {"force": False}, rmtree, "a non-empty directory is deleted only with force")
-    k2_unreachable(ctx, "R2-delete-not-backed-up", where, g, {"f in files_to_backup": True}, delany, "a file scheduled for backup is never deleted")
+    from ..astutil import bound_names, one
+    import re as _re
+
+    # role binding: the backup list is the one the iter_changes scan appends to
+    scan = [n for n in walk_own(fn) if isinstance(n, ast.For) and any(call_attr(c) == "iter_changes" for c in calls_in(n.iter))]
+    ctx.require(len(scan) == 1, f"{where}: iter_changes scan not found")
+    fb = one(sorted({call_recv(c) for c in calls_in(scan[0]) if call_attr(c) == "append"}), "files_to_backup.append(...) in the iter_changes scan", where)
+    v_chg = norm(scan[0].target)
+    member = {norm(n.ast): True for n in g.nodes if n.kind == "test" and _re.fullmatch(rf"\w+ in {_re.escape(fb)}", norm(n.ast))}
+    ctx.check("R2-delete-not-backed-up", where, bool(member), f"deletion is decided by a membership test against {fb}", message=f"no `<file> in {fb}` test left: files scheduled for backup are deleted like any other")
+    k2_unreachable(ctx, "R2-delete-not-backed-up", where, g, member or {"<none>": True}, delany, "a file scheduled for backup is never deleted")
     k2_unreachable(ctx, "R2-keep-files", where, g, {"keep_files": True, "not keep_files": False}, rmtree + delany + calling(g, name="osutils.rename"), "keep_files: nothing is deleted or moved")
-    apps = [c for c in calls_in(fn) if call_attr(c) == "append" and call_recv(c) == "files_to_backup"]
+    apps = [c for c in calls_in(fn) if call_attr(c) == "append" and call_recv(c) == fb]
     loop = [n for n in walk_own(fn) if isinstance(n, ast.For) and any(call_attr(c) == "iter_changes" for c in calls_in(n.iter))]
     okloop = len(loop) == 1 and "want_unversioned=True" in norm(loop[0].iter)
     tests = [norm(n.test) for l in loop for n in walk_own(l) if isinstance(n, ast.If)]
-    ctx.check("R2-backup-set", where, okloop and any("change.versioned[0] is False" in t for t in tests) and any("change.changed_content" in t for t in tests) and len(apps) >= 2, "files_to_backup receives unversioned and changed-content entries from iter_changes(want_unversioned=True)", construct=str(tests))
+    ctx.check("R2-backup-set", where, okloop and any(f"{v_chg}.versioned[0] is False" in t for t in tests) and any(f"{v_chg}.changed_content" in t for t in tests) and len(apps) >= 2, "files_to_backup receives unversioned and changed-content entries from iter_changes(want_unversioned=True)", construct=str(tests))
     gl = [n.id for n in g.nodes if n.kind == "for" and any(call_attr(c) == "iter_changes" for c in n.calls())]
     k2_unreachable(ctx, "R2-backup-set", where, g, {"not keep_files and (not force)": False}, gl, "the backup scan runs exactly on the `not keep_files and not force` path") if gl else None
     g_on = g.assume({"not keep_files and (not force)": True})
@@ -60,31 +70,34 @@ def run(ctx):
     ctx.check("R2-backup-set", where, bool(gl) and ok, "without force, the backup scan precedes any deletion", witness=g.show_path(w) if w else None)
     nested = repo.module(WT).get("InventoryWorkingTree.remove")
     rec = [n for n in ast.walk(nested) if isinstance(n, ast.FunctionDef) and n.name == "recurse_directory_to_add_files"]
-    ctx.check("R2-unknowns-in-dirs-backed-up", where, len(rec) == 1 and any(call_attr(c) == "append" and call_recv(c) == "files_to_backup" for c in calls_in(rec[0])), "unversioned files found inside a removed directory are scheduled for backup")
+    ctx.check("R2-unknowns-in-dirs-backed-up", where, len(rec) == 1 and any(call_attr(c) == "append" and call_recv(c) == fb for c in calls_in(rec[0])), "unversioned files found inside a removed directory are scheduled for backup")
     bk = [n for n in ast.walk(nested) if isinstance(n, ast.FunctionDef) and n.name == "backup"]
     ctx.check("R2-backup-renames", where, len(bk) == 1 and any(call_attr(c) == "_available_backup_name" for c in calls_in(bk[0])) and any(call_name(c) == "osutils.rename" for c in calls_in(bk[0])) and not any(call_name(c) in ("osutils.delete_any", "osutils.rmtree", "os.unlink") for c in calls_in(bk[0])), "backup() renames to a fresh backup name and deletes nothing")
 
     # ---- R3 -----------------------------------------------------------------
     fn, g, where = fn_cfg(ctx, TR, "_alter_files")
     dels = need(where, calling(g, attr="delete_contents", recv="tt"), "tt.delete_contents")
-    k2_unreachable(ctx, "R3-delete-needs-not-keep", where, g, {"keep_content": True, "not keep_content": False}, dels, "content is deleted only when keep_content is false")
-    sha = need(where, [n.id for n in g.nodes if n.kind == "stmt" and isinstance(n.ast, ast.Assign) and norm(n.ast.targets[0]) == "wt_sha1"], "wt_sha1 = working_tree.get_file_sha1(wt_path)")
-    cmp_nodes = [n.id for n in g.nodes if n.kind == "test" and "wt_sha1" in norm(n.ast) and any(isinstance(x, ast.Compare) and any(isinstance(o, (ast.Eq, ast.NotEq)) for o in x.ops) for x in ast.walk(n.ast))]
+    kc = one(sorted({norm(n.ast.targets[0]) for n in g.nodes if n.kind == "stmt" and isinstance(n.ast, ast.Assign) and isinstance(n.ast.value, ast.Constant) and n.ast.value.value is True and isinstance(n.ast.targets[0], ast.Name) and any(isinstance(m.ast, ast.Assign) and norm(m.ast.targets[0]) == norm(n.ast.targets[0]) and isinstance(m.ast.value, ast.Constant) and m.ast.value.value is False for m in g.nodes if m.kind == "stmt")}), "keep_content flag (set False, then True)", where)
+    v_sha = one(bound_names(fn, lambda t, n: t.startswith("working_tree.get_file_sha1(")), "wt_sha1 = working_tree.get_file_sha1(wt_path)", where)
+    k2_unreachable(ctx, "R3-delete-needs-not-keep", where, g, {kc: True, f"not {kc}": False}, dels, "content is deleted only when keep_content is false")
+    sha = need(where, [n.id for n in g.nodes if n.kind == "stmt" and isinstance(n.ast, ast.Assign) and norm(n.ast.targets[0]) == v_sha], "wt_sha1 = working_tree.get_file_sha1(wt_path)")
+    cmp_nodes = [n.id for n in g.nodes if n.kind == "test" and v_sha in norm(n.ast) and any(isinstance(x, ast.Compare) and any(isinstance(o, (ast.Eq, ast.NotEq)) for o in x.ops) for x in ast.walk(n.ast))]
     got = g.reach(sha, avoid=cmp_nodes)
     hit = sorted(set(dels) & got)
     w = g.path(sha, hit, avoid=cmp_nodes) if hit else None
     ctx.check("R3-hash-compared-before-drop", where, bool(cmp_nodes) and not hit, "between reading the working file's sha1 and dropping its content some test compares that sha1", message="a user-edited file's content can be dropped without its hash having been compared with anything (merely being listed as merge-modified is not enough)", witness=g.show_path(w) if w else None)
-    keeps = [n for n in g.nodes if n.kind == "stmt" and isinstance(n.ast, ast.Assign) and norm(n.ast.targets[0]) == "keep_content" and norm(n.ast.value) == "True"]
+    keeps = [n for n in g.nodes if n.kind == "stmt" and isinstance(n.ast, ast.Assign) and norm(n.ast.targets[0]) == kc and norm(n.ast.value) == "True"]
     ok = len(keeps) >= 2
     for k in keeps:
-        cut = {(t.id, b, l) for t in g.nodes if t.kind == "test" and ("sha1" in norm(t.ast) or "target_versioned" in norm(t.ast)) for (b, l) in g.succ[t.id] if l == "T"}
+        cut = {(t.id, b, l) for t in g.nodes if t.kind == "test" and (v_sha in norm(t.ast) or "target_versioned" in norm(t.ast)) for (b, l) in g.succ[t.id] if l == "T"}
         if k.id in g.copy_without(cut).reachable_from_entry():
             ok = False
     ctx.check("R3-keep-under-inequality", where, ok, "every `keep_content = True` sits under a sha1 comparison or the unversioned-target test")
     bn = calling(g, attr="_available_backup_name")
-    adj = calling(g, attr="adjust_path", argpred=lambda c: c.args and norm(c.args[0]) == "backup_name")
+    v_bn = bound_names(fn, lambda t, n: "._available_backup_name(" in t)
+    adj = calling(g, attr="adjust_path", argpred=lambda c: c.args and norm(c.args[0]) in v_bn)
     ctx.check("R3-kept-content-backed-up", where, bool(bn) and bool(adj) and g.always_before(bn, adj)[0], "kept content is moved to tt._available_backup_name(...)")
-    k2_unreachable(ctx, "R3-kept-content-backed-up", where, g, {"keep_content": False, "not keep_content": True}, adj, "the backup rename happens only for kept content")
+    k2_unreachable(ctx, "R3-kept-content-backed-up", where, g, {kc: False, f"not {kc}": True}, adj, "the backup rename happens only for kept content")
 
     # ---- R4 -----------------------------------------------------------------
     n_dump = 0
@@ -104,9 +117,11 @@ def run(ctx):
     # ---- R5 -----------------------------------------------------------------
     fn, g, where = fn_cfg(ctx, WT, "InventoryWorkingTree.store_uncommitted")
     st = need(where, calling(g, attr="store_uncommitted", recv="self.branch"), "self.branch.store_uncommitted(shelf_creator)")
-    trn = need(where, calling(g, attr="transform", recv="shelf_creator"), "shelf_creator.transform()")
+    sc = one(bound_names(fn, lambda t, n: "ShelfCreator(" in t), "shelf_creator = shelf.ShelfCreator(...)", where)
+    ctx.require(all(any(norm(a) == sc for c in g.nodes[i].calls() if call_attr(c) == "store_uncommitted" for a in c.args) for i in st), f"{where}: the branch is not handed the shelf creator")
+    trn = need(where, calling(g, attr="transform", recv=sc), "shelf_creator.transform()")
     k1_before(ctx, "R5-store-before-revert", where, g, st, trn, "the branch accepts the shelf before the tree is reverted")
-    fin = calling(g, attr="finalize", recv="shelf_creator")
+    fin = calling(g, attr="finalize", recv=sc)
     ok, w = g.always_after(calling(g, attr="shelve_all"), fin)
     ctx.check("R5-store-before-revert", where, bool(fin) and ok, "the shelf creator is finalized on every exit", witness=g.show_path(w) if w else None)
     fn, g, where = fn_cfg(ctx, WT, "InventoryWorkingTree.restore_uncommitted")
